@@ -8,7 +8,8 @@ from .. import core
 
 RULE = ("exhaustive: every position (plus the positions one step outside on each side and off-lattice "
         "coordinates) of every grid up to G×G×G (G=4 quick, 8 thorough); sampled: anisotropic grids up to "
-        "2^21 per axis with corner/edge/random positions; routing: all (minishard,shard,preshift) bit "
+        "2^21 per axis with corner/edge/random positions; get_cmc with coordinates as Python ints and as NumPy "
+        "int16/uint16/int32/uint32/int64 scalars (the narrowest type that holds them included); routing: all (minishard,shard,preshift) bit "
         "triples in {0..5}^3 plus sums 60..70 and bits ≥ 64, identifiers 0, 1, 2^63, 2^64-1, random. "
         "Trivial = 1×1×1 grid / all-zero bit triple.")
 ASSUMPTIONS = [
